@@ -49,6 +49,10 @@ class Harness:
                     super().__init__()
                 self._scen = scen
                 self._q = quota or 0
+                # the observer identifies a worker by the order of its creation, not by the pool's `wid` (the properties do not
+                # say that worker ids are never reused)
+                self._uid = getattr(S.W, "_wk_created", 0)
+                S.W._wk_created = self._uid + 1
 
             def _user_code(self):
                 # user code takes time: a scheduling point inside begin / the functor / end (not for step-level conformance runs)
@@ -56,13 +60,13 @@ class Harness:
                     S.vop("user.code", self, lambda: True, lambda: None)
 
             def begin(self):
-                S.W.event(op="wbegin", w=self.wid, q=self._q)
+                S.W.event(op="wbegin", w=self._uid, q=self._q)
                 self._user_code()
                 fl = self._scen.get("fault")
-                if fl and fl["where"] == "begin" and fl["w"] == self.wid:
+                if fl and fl["where"] == "begin" and fl["w"] == self._uid:
                     S.W.event(op="fault")
                     raise RuntimeError("injected fault in begin")
-                S.W.event(op="wready", w=self.wid)
+                S.W.event(op="wready", w=self._uid)
 
             def __call__(self, x):
                 if x is None:               # a legal element: the functor maps it like any other value
@@ -70,16 +74,16 @@ class Harness:
                     return f(x)
                 c, i = x // 1000, x % 1000
                 ch = self._scen["calls"][c - 1]["chunk"] if 1 <= c <= len(self._scen["calls"]) else 1
-                S.W.event(op="witem", w=self.wid, c=c, i=i, chunk=ch)
+                S.W.event(op="witem", w=self._uid, c=c, i=i, chunk=ch)
                 fl = self._scen.get("fault")
-                if fl and fl["where"] == "item" and fl["w"] == self.wid and fl["c"] == c and fl["i"] == i:
+                if fl and fl["where"] == "item" and fl["w"] == self._uid and fl["c"] == c and fl["i"] == i:
                     S.W.event(op="fault")
                     raise RuntimeError("injected fault in functor")
                 self._user_code()
                 return f(x)
 
             def end(self):
-                S.W.event(op="wend", w=self.wid)
+                S.W.event(op="wend", w=self._uid)
                 self._user_code()
         self.Wk = Wk
         self.shared = None
@@ -121,7 +125,7 @@ class Harness:
             with pool:
                 if scen.get("uar") == "start":
                     pool.until_all_ready()
-                    w.event(op="all_ready", ws=[p.wid for p in list.__iter__(pool.procs)])
+                    w.event(op="all_ready", ws=[p._uid for p in list.__iter__(pool.procs)])
                 for ci, call in enumerate(scen["calls"]):
                     c = ci + 1
                     w.event(op="call_begin", c=c, n=call["n"], chunk=call["chunk"], ord=1 if call["ordered"] else 0)
@@ -142,7 +146,7 @@ class Harness:
                             # the consumer waits for readiness between two results, while workers may be retiring and being
                             # replaced: every worker that was in a slot when the call was made must have completed begin() when
                             # it returns (a slot read later holds that worker or, if it retired, its replacement)
-                            snapshot = [p.wid for p in list.__iter__(pool.procs)]
+                            snapshot = [p._uid for p in list.__iter__(pool.procs)]
                             pool.until_all_ready()
                             w.event(op="all_ready", ws=snapshot)
                         if stop_at == got:
@@ -155,7 +159,7 @@ class Harness:
                     w.event(op="call_end")
                     if scen.get("uar") == "between":
                         pool.until_all_ready()
-                        w.event(op="all_ready", ws=[p.wid for p in list.__iter__(pool.procs)])
+                        w.event(op="all_ready", ws=[p._uid for p in list.__iter__(pool.procs)])
             alive = sum(1 for t in w.tasks if t.name.startswith("P") and not t.done)
             w.event(op="exit", alive=alive)
         return main
